@@ -7,6 +7,15 @@ pub type Exponent = Rational;
 pub trait Power {
     fn power(self, e: Exponent) -> Self;
 
+    /// Like `power`, but `None` if an exponent computation overflows (exponents are `i128`
+    /// rationals). The default is for factors that do not carry an exponent.
+    fn try_power(self, e: Exponent) -> Option<Self>
+    where
+        Self: Sized,
+    {
+        Some(self.power(e))
+    }
+
     fn invert(self) -> Self
     where
         Self: Sized,
